@@ -307,7 +307,7 @@ func c09Cases(c *Ctx) []rawCase {
 	}
 	for pi, pl := range plugins {
 		for si, sh := range argShapes {
-			if c.Quick && (pi+si)%2 != int(c.Seed%2) && si > 2 {
+			if c.Quick && (pi+si)%2 != int(c.Seed%2) && si > 2 && !strings.HasPrefix(sh.name, "variadic") {
 				continue
 			}
 			src := "package p\n\n" + sh.pre + "\nfunc use() { derive" + pl + "(" + sh.args + ") }\n"
